@@ -33,6 +33,7 @@ def harnesses(tier):
         h += P.curated_h(LIFE, [(1, 1), (2, 0), (2, 2)], "line")
     h += P.scale_h(tier, ["S10-callable-kinds", "S3-four-restarts", "S7-idle-cycles", "S9-restart-with-backlog", "S2-ten-prequeued"])  # many tasks / restarts / larger pools, first ladder levels
     h += P.options_h(tier)  # bounded queue / short and long polling timeouts
+    h += P.fault_h(tier)  # a worker-thread creation that fails
     return h
 
 
